@@ -58,17 +58,38 @@ const (
 // address tokens
 // ---------------------------------------------------------------------------------------------
 
+// gIP: the literal of an address token.  Every class is spread over its whole range: the index selects
+// (index mod 4) one of four sub-ranges, and is itself stored in the low bits, so that the classifier gTok
+// can recover (class, index) WITHOUT knowing which sub-range was used.
+//
+//	(index mod 4 =  0              1               2               3)
+//	g4  10.1.0.x       192.168.7.x     172.16.5.x      8.8.4.x          private and public IPv4
+//	l4  127.0.0.x      127.1.2.x       127.255.255.x   127.0.1.x        127.0.0.0/8
+//	k4  169.254.0.x    169.254.200.x   169.254.255.x   169.254.1.x      169.254.0.0/16
+//	g6  2001:db8::x    fd00::x         fc00::x         2a00:1450::x     global and unique local (fc00::/7)
+//	k6  fe80::x        fe90::x         fea0::x         febf:ffff::x     fe80::/10
+//	s6  fec0::x        fed0::x         fee0::x         feff:ffff::x     fec0::/10
+//	c6  ::10.1.0.x     ::192.0.2.x     ::0.0.1.x       ::255.255.255.x  ::/96 without :: and ::1
 func gIP(tok string) net.IP {
 	cls, idxs, _ := strings.Cut(tok, ".")
 	idx, _ := strconv.Atoi(idxs)
 	b := byte(idx)
+	v := idx % 4
+	v6 := func(b0, b1, b2, b3 byte) net.IP {
+		ip := make(net.IP, 16)
+		ip[0], ip[1], ip[2], ip[3] = b0, b1, b2, b3
+		ip[14], ip[15] = byte(idx>>8), byte(idx)
+		return ip
+	}
+	ip4 := func(t [4][3]byte) net.IP { return net.IPv4(t[v][0], t[v][1], t[v][2], b).To4() }
+	ip6 := func(t [4][4]byte) net.IP { return v6(t[v][0], t[v][1], t[v][2], t[v][3]) }
 	switch cls {
 	case "g4":
-		return net.IPv4(10, 1, 0, b).To4()
+		return ip4([4][3]byte{{10, 1, 0}, {192, 168, 7}, {172, 16, 5}, {8, 8, 4}})
 	case "l4":
-		return net.IPv4(127, 0, 0, b).To4()
+		return ip4([4][3]byte{{127, 0, 0}, {127, 1, 2}, {127, 255, 255}, {127, 0, 1}})
 	case "k4":
-		return net.IPv4(169, 254, 0, b).To4()
+		return ip4([4][3]byte{{169, 254, 0}, {169, 254, 200}, {169, 254, 255}, {169, 254, 1}})
 	case "u4":
 		return net.IPv4(0, 0, 0, 0).To4()
 	case "x4":
@@ -76,15 +97,18 @@ func gIP(tok string) net.IP {
 	case "r4":
 		return net.IPv4(198, 51, 100, b).To4()
 	case "g6":
-		return net.ParseIP(fmt.Sprintf("2001:db8::%x", idx))
+		return ip6([4][4]byte{{0x20, 0x01, 0x0d, 0xb8}, {0xfd, 0, 0, 0}, {0xfc, 0, 0, 0}, {0x2a, 0x00, 0x14, 0x50}})
 	case "l6":
 		return net.ParseIP("::1")
 	case "k6":
-		return net.ParseIP(fmt.Sprintf("fe80::%x", idx))
+		return ip6([4][4]byte{{0xfe, 0x80, 0, 0}, {0xfe, 0x90, 0, 0}, {0xfe, 0xa0, 0, 0}, {0xfe, 0xbf, 0xff, 0xff}})
 	case "s6":
-		return net.ParseIP(fmt.Sprintf("fec0::%x", idx))
+		return ip6([4][4]byte{{0xfe, 0xc0, 0, 0}, {0xfe, 0xd0, 0, 0}, {0xfe, 0xe0, 0, 0}, {0xfe, 0xff, 0xff, 0xff}})
 	case "c6":
-		return net.ParseIP(fmt.Sprintf("::a01:%x", idx))
+		ip := make(net.IP, 16)
+		q := [][3]byte{{10, 1, 0}, {192, 0, 2}, {0, 0, 1}, {255, 255, 255}}[v]
+		ip[12], ip[13], ip[14], ip[15] = q[0], q[1], q[2], b
+		return ip
 	case "u6":
 		return net.ParseIP("::")
 	case "x6":
@@ -93,27 +117,31 @@ func gIP(tok string) net.IP {
 	return nil
 }
 
-// gTok classifies an IP back to its token ("?" + text when it is none of ours).
+// gTok classifies an IP back to its token ("?" + text when it is none of ours).  It is an INDEPENDENT
+// classifier by address ranges (RFC 4291 / 3879 / 3927 / 4193): it neither calls isSupportedIPv6Partial or
+// any other function of the package under test, nor knows which literals gIP produces.
 func gTok(ip net.IP) string {
 	if ip == nil {
 		return "nil"
 	}
 	if v4 := ip.To4(); v4 != nil {
 		switch {
-		case v4[0] == 10 && v4[1] == 1 && v4[2] == 0:
-			return fmt.Sprintf("g4.%d", v4[3])
-		case v4[0] == 127 && v4[1] == 0 && v4[2] == 0:
-			return fmt.Sprintf("l4.%d", v4[3])
-		case v4[0] == 169 && v4[1] == 254 && v4[2] == 0:
-			return fmt.Sprintf("k4.%d", v4[3])
-		case v4.Equal(net.IPv4zero):
+		case v4[0] == 0 && v4[1] == 0 && v4[2] == 0 && v4[3] == 0:
 			return "u4.0"
+		case v4[0] == 127:
+			return fmt.Sprintf("l4.%d", v4[3])
+		case v4[0] == 169 && v4[1] == 254:
+			return fmt.Sprintf("k4.%d", v4[3])
 		case v4[0] == 203 && v4[1] == 0 && v4[2] == 113:
 			return fmt.Sprintf("x4.%d", v4[3])
 		case v4[0] == 198 && v4[1] == 51 && v4[2] == 100:
 			return fmt.Sprintf("r4.%d", v4[3])
+		case v4[0] == 192 && v4[1] == 0 && v4[2] == 2:
+			return "?" + ip.String() // the scripted STUN / TURN servers
+		case v4[0] >= 224:
+			return "?" + ip.String() // multicast / reserved
 		}
-		return "?" + ip.String()
+		return fmt.Sprintf("g4.%d", v4[3]) // any other unicast IPv4 address, private or public
 	}
 	ip = ip.To16()
 	if ip == nil {
@@ -133,18 +161,20 @@ func gTok(ip net.IP) string {
 		return "u6.0"
 	case zeros(0, 15) && ip[15] == 1:
 		return "l6.1"
-	case ip[0] == 0x20 && ip[1] == 0x01 && ip[2] == 0x0d && ip[3] == 0xb8 && ip[4] == 0xff && ip[5] == 0xff && zeros(6, 14):
+	case zeros(0, 12):
+		return fmt.Sprintf("c6.%d", ip[15]) // ::/96, IPv4-compatible
+	case ip[0] == 0xfe && ip[1]&0xc0 == 0x80:
+		return fmt.Sprintf("k6.%d", low) // fe80::/10
+	case ip[0] == 0xfe && ip[1] >= 0xc0:
+		return fmt.Sprintf("s6.%d", low) // fec0::/10
+	case ip[0] == 0xff:
+		return "?" + ip.String() // multicast
+	case ip[0] == 0x20 && ip[1] == 0x01 && ip[2] == 0x0d && ip[3] == 0xb8 && ip[4] == 0xff && ip[5] == 0xff:
 		return fmt.Sprintf("x6.%d", low)
-	case ip[0] == 0x20 && ip[1] == 0x01 && ip[2] == 0x0d && ip[3] == 0xb8 && zeros(4, 14):
-		return fmt.Sprintf("g6.%d", low)
-	case ip[0] == 0xfe && ip[1] == 0x80 && zeros(2, 14):
-		return fmt.Sprintf("k6.%d", low)
-	case ip[0] == 0xfe && ip[1] == 0xc0 && zeros(2, 14):
-		return fmt.Sprintf("s6.%d", low)
-	case zeros(0, 12) && ip[12] == 0x0a && ip[13] == 0x01 && ip[14] == 0:
-		return fmt.Sprintf("c6.%d", ip[15])
+	case ip[0] == 0x20 && ip[1] == 0x01 && ip[2] == 0x0d && ip[3] == 0xb8 && ip[4] == 0 && ip[5] == 0x53:
+		return "?" + ip.String() // the scripted STUN / TURN servers
 	}
-	return "?" + ip.String()
+	return fmt.Sprintf("g6.%d", low) // any other unicast IPv6 address: global or unique local (fc00::/7)
 }
 
 func gTokOfString(s string) string {
